@@ -17,7 +17,8 @@ macro_rules! opaque {
         impl Clone for $n { #[verifier::external_body] fn clone(&self) -> (r: Self) ensures r == *self { unimplemented!() } }
     )* } }
 }
-opaque!(TransactionId, Rejected, DeliveryTag, RecvError, SendError, LinkStateError, DetachError, UserBody);
+opaque!(TransactionId, AmqpErrorS, DeliveryTag, RecvError, SendError, LinkStateError, DetachError, UserBody);
+pub struct Rejected { pub error: Option<AmqpErrorS> }
 pub struct Accepted {}
 
 //@@ type file=fe2o3-amqp-types/src/transaction/mod.rs kind=struct name=Declare
@@ -105,15 +106,22 @@ impl OutcomeRx {
 //@@ type file=fe2o3-amqp/src/endpoint/mod.rs kind=enum name=Settlement
 //@@ subst `oneshot::Receiver<Option<DeliveryState>>` => `OutcomeRx` rule=R9
 //@@ end
-pub struct SenderInnerS { pub sent: Ghost<Seq<Sent>> }
+pub struct SenderInnerS { pub sent: Ghost<Seq<Sent>>, pub closes: Ghost<Seq<Option<AmqpErrorS>>> }
 impl SenderInnerS {
     #[verifier::external_body]
     pub fn send_with_state(&mut self, sendable: Sendable, state: Option<DeliveryState>, batchable: bool) -> (r: Result<Settlement, SendError>)
         ensures
             r is Ok ==> final(self).sent@ == old(self).sent@.push(Sent { body: sendable.message.body, settled: sendable.settled, state, batchable }),
             r is Err ==> final(self).sent@ == old(self).sent@,
+            final(self).closes == old(self).closes,
+    { unimplemented!() }
+    /// the closing handshake of the control link (unit LINKDETACH)
+    #[verifier::external_body]
+    pub fn close_with_error(&mut self, error: Option<AmqpErrorS>) -> (r: Result<(), DetachError>)
+        ensures final(self).sent == old(self).sent, final(self).closes@ == old(self).closes@.push(error),
     { unimplemented!() }
 }
+impl ErrInto<ControllerSendError> for DetachError { open spec fn conv(self) -> ControllerSendError { ControllerSendError::Detached(self) } fn err_into(self) -> (r: ControllerSendError) { ControllerSendError::Detached(self) } }
 
 //@@ fn file=fe2o3-amqp/src/transaction/controller.rs name=send_on_control_link
 //@@ qmark
@@ -126,6 +134,7 @@ impl SenderInnerS {
 //@@ subst `SendError::IllegalDeliveryState` => `illegal_delivery_state()` rule=R11
 //@@ spec
     ensures
+        final(sender).closes == old(sender).closes,       // (the control link is not closed by an exchange on it)
         r is Ok ==> final(sender).sent@ == old(sender).sent@.push(Sent { body: sendable.message.body, settled: sendable.settled, state: None, batchable: false }),   // [C18.controller.control-message] a control message goes out exactly once, with no delivery state, as given
         r is Err ==> final(sender).sent@.len() <= old(sender).sent@.len() + 1,
 //@@ end
@@ -142,6 +151,7 @@ impl SenderInnerS {
 //@@ subst `|state| { if let DeliveryState::Rejected(rejected) = state { ControllerSendError::Rejected(rejected) } else { ControllerSendError::IllegalDeliveryState } }` => `|state: DeliveryState| -> (o: ControllerSendError) ensures (match state { DeliveryState::Rejected(rj) => o == ControllerSendError::Rejected(rj), _ => o is IllegalDeliveryState }) { if let DeliveryState::Rejected(rejected) = state { ControllerSendError::Rejected(rejected) } else { ControllerSendError::IllegalDeliveryState } }` rule=R18
 //@@ spec
     ensures
+        final(inner).closes == old(inner).closes,       // (the control link is not closed by an exchange on it)
         r is Ok ==> final(inner).sent@ == old(inner).sent@.push(Sent { body: Body::Discharge(Discharge { txn_id, fail: Some(fail) }), settled: false, state: None, batchable: false }),   // [C18.controller.discharge-on-wire] commit/rollback put exactly this transaction's id and the fail flag on the control link, unsettled
         final(inner).sent@.len() <= old(inner).sent@.len() + 1,                                                                                                                          // [C18.controller.discharge-once] at most one discharge message per call
         (r is Err && r->Err_0 is Rejected) ==> final(inner).sent@.len() == old(inner).sent@.len() + 1,                                                                                   // [C18.controller.outcome-reported] the coordinator's rejection is reported as such (only after the message went out)
@@ -157,6 +167,7 @@ impl SenderInnerS {
 //@@ subst `|state| { if let DeliveryState::Rejected(rejected) = state { ControllerSendError::Rejected(rejected) } else { ControllerSendError::IllegalDeliveryState } }` => `|state: DeliveryState| -> (o: ControllerSendError) ensures (match state { DeliveryState::Rejected(rj) => o == ControllerSendError::Rejected(rj), _ => o is IllegalDeliveryState }) { if let DeliveryState::Rejected(rejected) = state { ControllerSendError::Rejected(rejected) } else { ControllerSendError::IllegalDeliveryState } }` rule=R18
 //@@ spec
     ensures
+        final(inner).closes == old(inner).closes,       // (the control link is not closed by an exchange on it)
         r is Ok ==> final(inner).sent@ == old(inner).sent@.push(Sent { body: Body::Declare(Declare { global_id }), settled: false, state: None, batchable: false }),   // [C18.controller.declare-on-wire]
         final(inner).sent@.len() <= old(inner).sent@.len() + 1,
 //@@ end
@@ -207,11 +218,56 @@ impl OwnedTransaction {
 //@@ ret Result<(), ControllerSendError>
 //@@ spec
     ensures
-        final(self).declared == old(self).declared,
+        final(self).declared == old(self).declared, final(self).inner.closes == old(self).inner.closes,
         old(self).is_discharged ==> r is Ok && final(self).inner.sent@ == old(self).inner.sent@ && final(self).is_discharged,
         !old(self).is_discharged && r is Ok ==> final(self).is_discharged
             && final(self).inner.sent@ == old(self).inner.sent@.push(Sent { body: Body::Discharge(Discharge { txn_id: old(self).declared.txn_id, fail: Some(fail) }), settled: false, state: None, batchable: false }),   // [C18.controller.discharge-on-wire]
         r is Err ==> !final(self).is_discharged,                                                                                                          // [C18.controller.failed-discharge-not-recorded]
+//@@ end
+
+//@@ fn file=fe2o3-amqp/src/transaction/owned.rs impl=`impl TransactionDischarge for OwnedTransaction` name=commit as=owned_commit id=OwnedTransaction::commit
+//@@ qmark
+//@@ ret Result<(), ControllerSendError>
+//@@ subst `(mut self)` => `(&mut self)` rule=R32
+//@@ subst `self.discharge(` => `self.owned_discharge(` rule=R2
+//@@ spec
+    ensures
+        !old(self).is_discharged && r is Ok ==> final(self).inner.sent@ == old(self).inner.sent@.push(Sent { body: Body::Discharge(Discharge { txn_id: old(self).declared.txn_id, fail: Some(false) }), settled: false, state: None, batchable: false }),   // [C18.controller.commit-is-discharge-without-fail] committing a transaction that owns its control link: the discharge of ITS id with fail = false
+        r is Ok ==> final(self).inner.closes@ == old(self).inner.closes@.push(None::<AmqpErrorS>),       // [C13.txn.owned-control-link-closed-after-the-discharge] [C18.txn.owned-control-link-closed-after-the-discharge] ... and only after the coordinator's answer to it has come back is the transaction's own control link closed (a close before the discharge would abandon -- roll back -- the transaction at the coordinator)
+        final(self).inner.closes@.len() > old(self).inner.closes@.len() ==> final(self).is_discharged,
+//@@ end
+
+//@@ fn file=fe2o3-amqp/src/transaction/owned.rs impl=`impl TransactionDischarge for OwnedTransaction` name=rollback as=owned_rollback id=OwnedTransaction::rollback
+//@@ qmark
+//@@ ret Result<(), ControllerSendError>
+//@@ subst `(mut self)` => `(&mut self)` rule=R32
+//@@ subst `self.discharge(` => `self.owned_discharge(` rule=R2
+//@@ spec
+    ensures
+        !old(self).is_discharged && r is Ok ==> final(self).inner.sent@ == old(self).inner.sent@.push(Sent { body: Body::Discharge(Discharge { txn_id: old(self).declared.txn_id, fail: Some(true) }), settled: false, state: None, batchable: false }),   // [C18.controller.rollback-is-discharge-with-fail]
+        r is Ok ==> final(self).inner.closes@ == old(self).inner.closes@.push(None::<AmqpErrorS>),       // [C13.txn.owned-control-link-closed-after-the-discharge]
+        final(self).inner.closes@.len() > old(self).inner.closes@.len() ==> final(self).is_discharged,
+//@@ end
+}
+
+//@@ type file=fe2o3-amqp/src/transaction/mod.rs kind=const name=DEFAULT_ROLLBACK_ON_DROP_TRIALS
+//@@ end
+impl ControllerS { pub fn into_inner(self) -> (r: SenderInnerS) ensures r == self.inner { self.inner } }
+pub fn global_id_into(g: Option<TransactionId>) -> (r: Option<TransactionId>) ensures r == g { g }
+impl OwnedTransaction {
+//@@ fn file=fe2o3-amqp/src/transaction/owned.rs impl=`impl OwnedTransaction` name=declare_with_controller id=OwnedTransaction::declare_with_controller
+//@@ qmark
+//@@ generics
+//@@ nowhere
+//@@ param controller : ControllerS
+//@@ param global_id : Option<TransactionId>
+//@@ ret Result<OwnedTransaction, ControllerSendError>
+//@@ subst `global_id.into()` => `global_id_into(global_id)` rule=R16
+//@@ spec
+    ensures
+        r is Ok ==> !r->Ok_0.is_discharged,       // [C18.controller.fresh-transaction-not-discharged] a transaction that has just been declared is not discharged: commit / rollback / Drop will still put its discharge on the wire
+        r is Ok ==> r->Ok_0.inner.sent@ == controller.inner.sent@.push(Sent { body: Body::Declare(Declare { global_id }), settled: false, state: None, batchable: false }) && r->Ok_0.inner.closes == controller.inner.closes,       // [C18.controller.declare-on-wire] the declare goes out on the control link the transaction then owns -- the link its discharge will use
+        r is Ok ==> r->Ok_0.rollback_on_drop_trials == DEFAULT_ROLLBACK_ON_DROP_TRIALS,
 //@@ end
 }
 
@@ -224,6 +280,15 @@ pub struct PostSenderInner { pub sent: Ghost<Seq<Sent>>, pub link: LinkS }
 impl PostSenderInner {
     #[verifier::external_body]
     pub fn send_with_state(&mut self, sendable: Sendable, state: Option<DeliveryState>, batchable: bool) -> (r: Result<Settlement, PostError>)
+        ensures
+            r is Ok ==> final(self).sent@ == old(self).sent@.push(Sent { body: sendable.message.body, settled: sendable.settled, state, batchable }),
+            r is Err ==> final(self).sent@ == old(self).sent@,
+    { unimplemented!() }
+}
+impl PostSenderInner {
+    /// the by-reference twin (unit SENDINNER: same delivery, the message borrowed)
+    #[verifier::external_body]
+    pub fn send_ref_with_state(&mut self, sendable: &Sendable, state: Option<DeliveryState>, batchable: bool) -> (r: Result<Settlement, PostError>)
         ensures
             r is Ok ==> final(self).sent@ == old(self).sent@.push(Sent { body: sendable.message.body, settled: sendable.settled, state, batchable }),
             r is Err ==> final(self).sent@ == old(self).sent@,
@@ -256,6 +321,20 @@ pub struct Receiver { pub inner: RecvInner }
     ensures
         r is Ok ==> final(sender).inner.sent@ == old(sender).inner.sent@.push(Sent { body: sendable.message.body, settled: sendable.settled,
             state: Some(DeliveryState::TransactionalState(TransactionalState { txn_id: *txn_id, outcome: None })), batchable }),   // [C18.controller.post-carries-txn-id] a transactional post is the application's message, sent once, with a transactional-state naming THIS transaction and no outcome
+        r is Err ==> final(sender).inner.sent@ == old(sender).inner.sent@,
+//@@ end
+
+//@@ fn file=fe2o3-amqp/src/transaction/mod.rs name=post_ref_inner
+//@@ qmark
+//@@ generics
+//@@ nowhere
+//@@ param sendable : &Sendable
+//@@ ret Result<DeliveryFut, PostError>
+//@@ subst `.send_ref_with_state::<T, PostError>(` => `.send_ref_with_state(` rule=R7
+//@@ spec
+    ensures
+        r is Ok ==> final(sender).inner.sent@ == old(sender).inner.sent@.push(Sent { body: sendable.message.body, settled: sendable.settled,
+            state: Some(DeliveryState::TransactionalState(TransactionalState { txn_id: *txn_id, outcome: None })), batchable }),   // [C18.controller.post-carries-txn-id] the by-reference post: the same transfer as the by-value one
         r is Err ==> final(sender).inner.sent@ == old(sender).inner.sent@,
 //@@ end
 
@@ -293,6 +372,44 @@ impl Transaction {
         r is Ok ==> final(sender).inner.sent@ == old(sender).inner.sent@.push(Sent { body: sendable.message.body, settled: sendable.settled,
             state: Some(DeliveryState::TransactionalState(TransactionalState { txn_id: self.declared.txn_id, outcome: None })), batchable: false }),   // [C18.controller.post-under-this-transaction]
         final(sender).inner.sent@.len() <= old(sender).inner.sent@.len() + 1,
+//@@ end
+//@@ fn file=fe2o3-amqp/src/transaction/mod.rs impl=`~TransactionPosting:TransactionBase` name=post_batchable_ref implfuture id=TransactionPosting::post_batchable_ref
+//@@ generics
+//@@ nowhere
+//@@ param sendable : &Sendable
+//@@ ret Result<DeliveryFut, PostError>
+//@@ spec
+    ensures
+        r is Ok ==> final(sender).inner.sent@ == old(sender).inner.sent@.push(Sent { body: sendable.message.body, settled: sendable.settled,
+            state: Some(DeliveryState::TransactionalState(TransactionalState { txn_id: self.declared.txn_id, outcome: None })), batchable: true }),   // [C18.controller.post-under-this-transaction]
+        r is Err ==> final(sender).inner.sent@ == old(sender).inner.sent@,
+//@@ end
+
+//@@ fn file=fe2o3-amqp/src/transaction/mod.rs impl=`~TransactionPosting:TransactionBase` name=post_ref implfuture id=TransactionPosting::post_ref
+//@@ qmark
+//@@ generics
+//@@ nowhere
+//@@ param sendable : &Sendable
+//@@ ret Result<OutcomeS, PostError>
+//@@ subst `post_ref_inner(self.txn_id(), sender, sendable, false)?` => `post_ref_inner(self.txn_id(), sender, sendable, false)?.await_outcome()` rule=R3b
+//@@ spec
+    ensures
+        r is Ok ==> final(sender).inner.sent@ == old(sender).inner.sent@.push(Sent { body: sendable.message.body, settled: sendable.settled,
+            state: Some(DeliveryState::TransactionalState(TransactionalState { txn_id: self.declared.txn_id, outcome: None })), batchable: false }),   // [C18.controller.post-under-this-transaction]
+        final(sender).inner.sent@.len() <= old(sender).inner.sent@.len() + 1,
+//@@ end
+
+//@@ fn file=fe2o3-amqp/src/transaction/mod.rs impl=`~TransactionRetirement:TransactionBase` name=reject
+//@@ generics
+//@@ nowhere
+//@@ param delivery : DeliveryInfo
+//@@ param error : Option<AmqpErrorS>
+//@@ ret Result<(), DispositionError>
+//@@ subst `async move {` => `{` rule=R3
+//@@ spec
+    ensures
+        r is Ok ==> final(recver).inner.disposed@ == old(recver).inner.disposed@.push((delivery, None::<bool>,
+            DeliveryState::TransactionalState(TransactionalState { txn_id: self.declared.txn_id, outcome: Some(Outcome::Rejected(Rejected { error })) }))),   // [C18.controller.reject-under-txn] a transactional reject retires the delivery with `rejected`, carrying the error given, under THIS transaction's id
 //@@ end
 //@@ fn file=fe2o3-amqp/src/transaction/mod.rs impl=`~TransactionRetirement:TransactionBase` name=retire
 //@@ qmark
